@@ -218,9 +218,19 @@ def history(ctx, spec):
     if kind == 'autoref':
         reg = monitors.HandleRegistry()
         reg.install()
-    w = World(ctx, rng, names, kind=kind, strict=True, registry=reg)
+    dynamic = spec['sub'] % 2 == 1
+    if dynamic:
+        import dd.bdd as _b
+        _b.REORDER_STARTS = 5 + spec['sub'] % 7
+        ctx.counters['dynamic_reordering_histories'] += 1
+    w = World(ctx, rng, names, kind=kind, strict=True, registry=reg,
+              reordering=dynamic)
     menu = dict(build=5, quantify=14, apply_quant=6, apply=3, drop=4, gc=3,
                 swap=3 if kind == 'bdd' else 0, sift=1, reorder_to=1)
+    if kind == 'autoref':
+        menu['fop'] = 4
+    if dynamic:
+        menu.update(rearm=4, apply_quant=14, swap=0, sift=0, reorder_to=0)
     for k in range(spec['steps']):
         ok, res = ctx.guard(w.site, w.step, menu, case=dict(
             spec=spec, step=k, tail=[list(map(str, d)) for d in w.log[-6:]]))
